@@ -71,7 +71,8 @@ def binary_encoding(v: Variable, upper_bound: int) -> BinaryQuadraticModel:
 
     bqm = BinaryQuadraticModel(Vartype.BINARY)
 
-    max_pow = math.floor(math.log2(upper_bound))
+    # exact floor(log2(.)): the float log2 rounds up to k just below 2**k, from 2**49 - 1 on
+    max_pow = upper_bound.bit_length() - 1
     for exp in range(max_pow):
         val = 1 << exp
         bqm.set_linear((v, val), val)
